@@ -72,6 +72,8 @@ def impl_prog(lines, files=None, timeout=3):
         if files:
             tmp = tempfile.mkdtemp(prefix="cocoverif-inc-")
             for name, ls in files.items():
+                if os.path.dirname(name):
+                    os.makedirs(os.path.join(tmp, os.path.dirname(name)), exist_ok=True)
                 with open(os.path.join(tmp, name), "w") as fh:
                     fh.write("".join(ls))
             os.chdir(tmp)
@@ -98,9 +100,8 @@ def impl_prog(lines, files=None, timeout=3):
     finally:
         os.chdir(cwd)
         if tmp:
-            for f in os.listdir(tmp):
-                os.unlink(os.path.join(tmp, f))
-            os.rmdir(tmp)
+            import shutil
+            shutil.rmtree(tmp, ignore_errors=True)
 
 
 PROG_KEYS = ("stmts", "symtab", "origin", "originInt", "name", "image", "listing", "symlines")
